@@ -133,13 +133,19 @@ fn c05(tier: Tier, seed: u64, case: u64) -> CaseReport {
         rep.shape(fnv(c));
     }
     let r = mon::catch(|| {
+        // two builds must agree with the scan: a fresh import, and an incremental one in which
+        // every note was re-sent unchanged (didChange with identical text)
         let graph = Graph::import(&state(&texts), MarkdownOptions::default());
-        let g = &graph;
+        let mut db = Database::new(state(&texts), false, MarkdownOptions::default());
+        for (k, t) in &texts {
+            db.update_document(k.as_str().into(), t.clone());
+        }
+        let mut out = vec![];
+        let mut events = 0u64;
+        for (which, g) in [("import", &graph), ("after-resend", db.graph())] {
         let mut targets: BTreeSet<String> = texts.keys().cloned().collect();
         targets.extend(eb.keys().cloned());
         targets.extend(ei.keys().cloned());
-        let mut out = vec![];
-        let mut events = 0u64;
         for t in &targets {
             let key: Key = t.as_str().into();
             let ab: BTreeSet<(String, usize)> = g
@@ -168,8 +174,9 @@ fn c05(tier: Tier, seed: u64, case: u64) -> CaseReport {
                 } else {
                     "backlink-set-differs"
                 };
-                out.push((clause.to_string(), format!("{} backlinks of `{}`: expected {:?} got {:?}", kind, t, exp, act)));
+                out.push((clause.to_string(), format!("[{}] {} backlinks of `{}`: expected {:?} got {:?}", which, kind, t, exp, act)));
             }
+        }
         }
         (out, events)
     });
@@ -516,21 +523,28 @@ fn c18(tier: Tier, seed: u64, case: u64) -> CaseReport {
     let mut rep = CaseReport::new(case);
     let mut rng = Rng::for_case(seed, "c18", case);
     let last = tier.pick(2500, 60000) - 1;
-    if case + 1 >= last {
-        // pinned reproducers: a note that block-references itself / two notes referencing each other
+    if case + 2 >= last {
+        // pinned reproducers: a note that block-references itself / two notes referencing each other /
+        // a note included only from above the first heading of an unreferenced note
         let (id, texts): (&str, BTreeMap<String, String>) = if case == last {
             ("self-reference", [("n1".to_string(), "# Alone\n\n[x](n1)\n\n## Sub\n".to_string())].into_iter().collect())
-        } else {
+        } else if case + 1 == last {
             ("reference-cycle", [("n1".to_string(), "# One\n\n[x](n2)\n".to_string()), ("n2".to_string(), "# Two\n\n[y](n1)\n".to_string())].into_iter().collect())
+        } else {
+            ("doc-level-reference", [("n1".to_string(), "[x](n2)\n\n# One\n".to_string()), ("n2".to_string(), "# Two\n".to_string())].into_iter().collect())
         };
         rep.count("events", 1);
         rep.count("pinned_reproducers", 1);
         if let Ok(paths) = mon::catch(|| {
             let g = Graph::import(&state(&texts), MarkdownOptions::default());
-            g.paths().len()
+            let mut ends: Vec<u64> = g.paths().iter().map(|p| p.target()).collect();
+            ends.sort();
+            ends.dedup();
+            ends.len()
         }) {
-            if paths == 0 {
-                rep.violate("heading-missing-from-paths", &format!("pinned:{}", id), "no heading of the library is listed at all".into(), json!({"library": texts}));
+            let heads: usize = texts.values().map(|t| mdscan::scan(t).atoms.iter().filter(|a| matches!(a.kind, AKind::Heading(_))).count()).sum();
+            if paths < heads {
+                rep.violate("heading-missing-from-paths", &format!("pinned:{}", id), format!("{} headings in the library, {} paths listed", heads, paths), json!({"library": texts}));
             }
         }
         return rep;
@@ -541,12 +555,25 @@ fn c18(tier: Tier, seed: u64, case: u64) -> CaseReport {
     let mut words = crate::gen::Words::new("");
     let mut texts: BTreeMap<String, String> = BTreeMap::new();
     let mut shape = vec![];
+    let mut under_heading: BTreeSet<String> = BTreeSet::new();
     for (i, k) in keys.iter().enumerate() {
         let dir = mdscan::key_dir(k);
         let mut t = String::new();
         let hn = if big { rng.range(6, 14) } else { rng.range(0, 6) };
         if rng.chance(1, 5) {
             t.push_str(&format!("{}\n\n", words.next(&mut rng, false)));
+        }
+        // block references above the first heading (included "by the document itself"); only in notes
+        // that are themselves included under a heading, otherwise the target's headings vanish
+        // (open finding KF-doc-level-reference-hides-headings)
+        if under_heading.contains(k) && rng.chance(1, 2) {
+            for _ in 0..rng.range(1, 2) {
+                if let Some(target) = keys.get(i + 1 + rng.below(3)).cloned() {
+                    let rel = mdscan::relativize(&target, &dir);
+                    shape.push(format!("d{}", target));
+                    t.push_str(&format!("[{}]({})\n\n", words.next(&mut rng, false), rel));
+                }
+            }
         }
         let mut level = 1usize;
         for h in 0..hn {
@@ -568,10 +595,9 @@ fn c18(tier: Tier, seed: u64, case: u64) -> CaseReport {
                         let target = if rng.chance(1, 8) { Some("missing1".to_string()) } else { keys.get(i + 1 + rng.below(3)).cloned() };
                         if let Some(target) = target {
                             let rel = mdscan::relativize(&target, &dir);
-                            if !rel.starts_with("..") {
-                                shape.push(format!("r{}", target));
-                                t.push_str(&format!("[{}]({})\n\n", words.next(&mut rng, false), rel));
-                            }
+                            shape.push(format!("r{}", target));
+                            under_heading.insert(target.clone());
+                            t.push_str(&format!("[{}]({})\n\n", words.next(&mut rng, false), rel));
                         }
                     }
                     _ => {
